@@ -267,6 +267,9 @@ impl ServerAccountStorage for ServerFileStorage {
             folder_id,
         )
         .await?;
+        // Load the existing commits so that a failed checkpoint
+        // verification can restore the event log from a snapshot
+        event_log.load_tree().await?;
         event_log.replace_all_events(diff).await?;
         let vault = FolderReducer::new()
             .reduce(&event_log)
